@@ -69,5 +69,155 @@ def get_logger(I, args, kwargs):
     return sv
 
 
+def coro_origin(I, co):
+    """(function term, receiver term) identifying which coroutine function was called on which object"""
+    ctx = I.ctx
+    co = ctx.from_val(co) if isinstance(co, SV) else co
+    if isinstance(co, Coro) and getattr(co, "origin", None):
+        fi, args = co.origin
+        return Z.mk_str(fi.key), (ctx.to_val(args[0]).t if args else Z.NONE), (ctx.to_val(args[1]).t if len(args) > 1 else Z.NONE)
+    if isinstance(co, Coro):
+        return Z.mk_str(co.label), Z.NONE, Z.NONE
+    if isinstance(co, SV):
+        return co.t, Z.NONE, Z.NONE
+    raise Unsupported("awaitable %r" % (co,))
+
+
+def any_exception(I, label, bound="BaseException"):
+    return I.sym_exception(ExternalRef(bound), label)
+
+
+def asyncio_run(I, args, kwargs):
+    """asyncio.run(coro): yields coro's outcome (result or the very exception), on a new loop in the calling thread"""
+    ctx = I.ctx
+    f, a, b = coro_origin(I, args[0])
+    ctx.emit("asyncio.run", SV(f), SV(a))
+    co = ctx.from_val(args[0]) if isinstance(args[0], SV) else args[0]
+    # ghost: how the loop ended (read by the contract of MetaRunner.run)
+    try:
+        r = co.thunk()
+    except PyRaise as pr:
+        ctx.store_raw(z3.IntVal(0), "$ghost_loop_exc", pr.exc.t)
+        raise
+    ctx.store_raw(z3.IntVal(0), "$ghost_loop_exc", Z.NONE)
+    return r
+
+
+def asyncio_shield(I, args, kwargs):
+    """asyncio.shield(aw): awaiting it yields aw's outcome; aw is not cancelled when the awaiting task is"""
+    ctx = I.ctx
+    co = ctx.from_val(args[0]) if isinstance(args[0], SV) else args[0]
+    f, a, b = coro_origin(I, co)
+
+    def thunk():
+        ctx.emit("shield", SV(f), SV(a), SV(b))
+        return co.thunk()
+
+    c2 = Coro(thunk, "shield")
+    return c2
+
+
+def asyncio_gather(I, args, kwargs):
+    """asyncio.gather(*aws[, return_exceptions]): coroutine arguments are run (here: in argument order); awaiting tasks
+    yields their outcomes; without return_exceptions the first exception of any of them is raised, otherwise it returns
+    only when all are done and raises nothing but cancellation"""
+    ctx = I.ctx
+    ret_exc = kwargs.get("return_exceptions", False)
+
+    def thunk():
+        ctx.emit("gather", SV(Z.mk_bool(bool(ret_exc))))
+        ctx.ghost["nondet"] = True
+        for a in args:
+            a2 = ctx.from_val(a) if isinstance(a, SV) else a
+            if isinstance(a2, Coro):
+                if ret_exc:
+                    try:
+                        a2.thunk()
+                    except PyRaise:
+                        pass
+                else:
+                    a2.thunk()
+        if not ret_exc:
+            # any awaited task may have failed with anything (a runner task re-raises its payload failure)
+            if ctx.choose(2, "gather-outcome") == 1:
+                e = any_exception(I, "gathered")
+                ctx.emit("gather-raised", e)
+                raise PyRaise(e)
+        else:
+            if ctx.choose(2, "gather-cancelled") == 1:
+                raise PyRaise(I.make_exception(ExternalRef("asyncio.CancelledError"), []))
+        return SV(fresh_val("gathered"), ANY)
+
+    return Coro(thunk, "gather")
+
+
+class CFuture(B.NativeObj):
+    """concurrent.futures.Future returned by run_coroutine_threadsafe: result() yields the coroutine's outcome itself"""
+
+    def __init__(self, co, loop):
+        self.co, self.loop = co, loop
+
+    def getattr(self, I, name):
+        if name == "result":
+            return self
+        raise Unsupported("attribute %s of a concurrent future" % name)
+
+    def call(self, I, args, kwargs):
+        ctx = I.ctx
+        ctx.emit("on-loop-thread", self.loop)
+        saved = ctx.ghost.get("here")
+        ctx.ghost["here"] = ("loop", z3.simplify(self.loop.t).sexpr())
+        try:
+            return self.co.thunk()
+        finally:
+            ctx.ghost["here"] = saved
+
+
+def run_coroutine_threadsafe(I, args, kwargs):
+    """asyncio.run_coroutine_threadsafe(coro, loop): coro runs on loop's thread; .result() returns the coroutine's
+    result object itself or raises its exception object itself (requires: the caller is not the loop thread)"""
+    ctx = I.ctx
+    co = ctx.from_val(args[0]) if isinstance(args[0], SV) else args[0]
+    if not isinstance(co, Coro):
+        raise Unsupported("run_coroutine_threadsafe of %r" % (co,))
+    f, a, b = coro_origin(I, co)
+    ctx.emit("run_coroutine_threadsafe", args[1], SV(f), SV(a))
+    return CFuture(co, args[1])
+
+
+def trio_from_thread_run(I, args, kwargs):
+    """trio.from_thread.run(f, *a, trio_token=t): requires the caller not to be t's thread (else RuntimeError) and raises
+    RunFinishedError when t's run is over; otherwise runs (awaits) f(*a) in t's thread and yields its outcome by identity"""
+    ctx = I.ctx
+    token = kwargs.get("trio_token")
+    d = ctx.choose(3, "from_thread.run")
+    if d == 1:
+        ctx.emit("from_thread.run-finished", token)
+        raise PyRaise(I.make_exception(ExternalRef("trio.RunFinishedError"), []))
+    if d == 2:
+        ctx.emit("from_thread.run-same-thread", token)
+        raise PyRaise(I.make_exception(ExternalRef("RuntimeError"), []))
+    ctx.emit("in-trio-thread", token)
+    saved = ctx.ghost.get("here")
+    ctx.ghost["here"] = ("trio", z3.simplify(ctx.to_val(token).t).sexpr())
+    try:
+        r = I.call(args[0], list(args[1:]), {})
+        r2 = ctx.from_val(r) if isinstance(r, SV) else r
+        if isinstance(r2, Coro):
+            r = r2.thunk()
+        return r
+    finally:
+        ctx.ghost["here"] = saved
+
+
+def asyncio_current_task(I, args, kwargs):
+    t = I.ctx.ghost.get("current_task")
+    if t is None:
+        t = I.ctx.ghost["current_task"] = SV(fresh_val("current_task"), ANY)
+    return t
+
+
 def install(E):
-    E.externals.update({"trio.sleep": trio_sleep, "str.__mod__": str_mod, "logging.getLogger": get_logger})
+    E.externals.update({"asyncio.run_coroutine_threadsafe": run_coroutine_threadsafe, "trio.from_thread.run": trio_from_thread_run,
+                        "asyncio.current_task": asyncio_current_task, "trio.sleep": trio_sleep, "str.__mod__": str_mod, "logging.getLogger": get_logger,
+                        "asyncio.run": asyncio_run, "asyncio.shield": asyncio_shield, "asyncio.gather": asyncio_gather})
